@@ -14,7 +14,7 @@ duplicated" is `List.Perm` of the id-less event lists: equality as multisets.
 -/
 namespace AwProofs.C14
 open Aw Aw.Store
-open Aw.Store.Migrate (noId)
+open Aw.Store.Migrate (noId LegacyFile migrateFile migrateFilePinned openPeewee migrate)
 variable {D : Type}
 
 /-- the migration of a consistent legacy database into the freshly created (empty) SQLite store
@@ -71,6 +71,19 @@ theorem migration_ids_distinct {old : Peewee.St D} {s' : Sqlite.St D} (h : Peewe
 theorem old_unchanged (old : Peewee.St D) (new : Sqlite.St D) (r₁ r₂ : Except Err (Sqlite.St D))
     (h₁ : Migrate.migrate old new = r₁) (h₂ : Migrate.migrate old new = r₂) : r₁ = r₂ :=
   h₁.symm.trans h₂
+
+/-- "the legacy file itself is left untouched": whatever vintage the file is (with or without the
+    bucket `datastr` column that the legacy store adds to files it opens), it is the same file after
+    the migration, and the new store is the migration of its content (F27: the legacy store reads a
+    scratch copy) -/
+theorem legacy_file_untouched (f : LegacyFile D) (new : Sqlite.St D) :
+    (migrateFile f new).1 = f ∧ (migrateFile f new).2 = migrate f.content new :=
+  ⟨rfl, rfl⟩
+
+/-- the pinned tree opened the legacy file itself: a file of the older vintage came out altered -/
+theorem legacy_file_altered_before_F27 (c : Peewee.St D) (new : Sqlite.St D) :
+    (migrateFilePinned ⟨false, c⟩ new).1 ≠ ⟨false, c⟩ := by
+  simp [migrateFilePinned, openPeewee]
 
 /-- the migration runs exactly when the default database file is new, no custom path was given,
     and the data directory has a file whose first two dot-separated components are the legacy name
